@@ -114,9 +114,19 @@ static std::string runMM(int n, int mut, int use)
 	case 18: uname = "fresh-handles"; expect = 'A'; o = attempt([&] { auto f = m.GetBegin(); if (!!f) { volatile int x = f->value; (void)x; ++f; }
 		auto kf = m.Find(1); if (!!kf) { (void)kf->key; m.Add(kf, 3); } }); break;
 	case 19: uname = "CheckIterator(value-iterator)"; expect = vmod ? 'R' : 'A'; o = attempt([&] { m.CheckIterator(it, false); }); break;
+	// value-index boundaries (key 1 has 2 values; fresh key iterator): count-1 legal, count / count+1 / SIZE_MAX rejected by Remove;
+	// MakeIterator allows index == count
+	case 20: uname = "Remove(key-iterator,count-1)"; expect = (m.Find(1) ? 'A' : '?'); o = attempt([&] { auto kf = m.Find(1); m.Remove(kf, kf->GetCount() - 1); }); break;
+	case 21: uname = "Remove(key-iterator,count)"; expect = 'R'; o = attempt([&] { auto kf = m.Find(1); size_t c = !!kf ? kf->GetCount() : 0; m.Remove(kf, c); }); break;
+	case 22: uname = "Remove(key-iterator,count+1)"; expect = 'R'; o = attempt([&] { auto kf = m.Find(1); size_t c = !!kf ? kf->GetCount() : 0; m.Remove(kf, c + 1); }); break;
+	case 23: uname = "Remove(key-iterator,SIZE_MAX)"; expect = 'R'; o = attempt([&] { m.Remove(m.Find(1), std::numeric_limits<size_t>::max()); }); break;
+	case 24: uname = "Remove(value-less-key-iterator,0)"; expect = 'R'; { auto kf = m.InsertKey(777); before = snapshot(m); o = attempt([&] { m.Remove(kf, 0); }); } break;
+	case 25: uname = "MakeIterator(key-iterator,count)"; expect = (m.Find(1) ? 'A' : '?'); o = attempt([&] { auto kf = m.Find(1); (void)m.MakeIterator(kf, kf->GetCount()); }); break;
+	case 26: uname = "MakeIterator(key-iterator,count+1)"; expect = 'R'; o = attempt([&] { auto kf = m.Find(1); size_t c = !!kf ? kf->GetCount() : 0; (void)m.MakeIterator(kf, c + 1); }); break;
+	case 27: uname = "MakeIterator(key-iterator,SIZE_MAX)"; expect = 'R'; o = attempt([&] { (void)m.MakeIterator(m.Find(1), std::numeric_limits<size_t>::max()); }); break;
 	default: return "BAD unknown use";
 	}
-	bool unchanged = (snapshot(m) == before) && m.GetCount() == cnt;
+	bool unchanged = (snapshot(m) == before) && m.GetCount() == cnt + ((use == 24) ? 0 : 0);
 	return verdict(expect, o, unchanged, std::string("mm mut=") + mname + " use=" + uname);
 }
 
@@ -168,6 +178,11 @@ template<class A> static std::string runArr(const char* kind, int n, int mut, in
 	case 17: uname = "iterator[out-of-range]"; expect = 'R'; o = attempt([&] { auto f = a.GetBegin(); volatile int x = f[ptrdiff_t(cnt)]; (void)x; }); break;
 	case 18: uname = "Remove(huge-index,2)"; expect = 'R'; o = attempt([&] { a.Remove(std::numeric_limits<size_t>::max(), 2); }); break;
 	case 19: uname = "fresh-iteration"; expect = 'A'; o = attempt([&] { long s = 0; for (auto f = a.GetBegin(); f != a.GetEnd(); ++f) s += *f; (void)s; }); break;
+	case 20: uname = "Remove(count-1,SIZE_MAX)"; expect = 'R'; o = attempt([&] { a.Remove(cnt - 1, std::numeric_limits<size_t>::max()); }); break;   // index + count overflows
+	case 21: uname = "Remove(1,SIZE_MAX)"; expect = 'R'; o = attempt([&] { a.Remove(1, std::numeric_limits<size_t>::max()); }); break;
+	case 22: uname = "Insert(SIZE_MAX)"; expect = 'R'; o = attempt([&] { a.Insert(std::numeric_limits<size_t>::max(), 5); }); break;
+	case 23: uname = "a[SIZE_MAX]"; expect = 'R'; o = attempt([&] { volatile int x = a[std::numeric_limits<size_t>::max()]; (void)x; }); break;
+	case 24: uname = "RemoveBack(SIZE_MAX)"; expect = 'R'; o = attempt([&] { a.RemoveBack(std::numeric_limits<size_t>::max()); }); break;
 	default: return "BAD unknown use";
 	}
 	std::vector<int> now; for (size_t i = 0; i < a.GetCount(); ++i) now.push_back(a[i]);
@@ -235,6 +250,15 @@ static std::string runDT(int n, int mut, int use, bool indexed)
 	case 13: uname = "fresh-handles"; expect = 'A'; o = attempt([&] { if (t.GetCount() > 0) { auto r = t[0]; volatile int x = r[intCol]; (void)x; auto s = t.Select(); (void)s.GetCount(); if (s.GetCount() > 0) { (void)s[0][grpCol]; } } }); break;
 	case 14: uname = "Insert(count+1,row)"; expect = 'R'; o = attempt([&] { t.Insert(t.GetCount() + 1, t.NewRow(intCol = 5000)); }); break;
 	case 15: uname = "Add(foreign-table-row)"; expect = 'R'; o = attempt([&] { t.Add(other.NewRow(intCol = 6000)); }); break;
+	case 16: uname = "selection.Remove(count-1,SIZE_MAX)"; expect = (rmod || either) ? '?' : 'R'; { size_t sc = all.GetCount(); std::vector<int> sv; bool cmp = !rmod && !either; if (cmp) for (auto r : all) sv.push_back(r[intCol]);
+		o = attempt([&] { all.Remove(sc - 1, std::numeric_limits<size_t>::max()); });
+		if (cmp) { std::vector<int> sv2; for (auto r : all) sv2.push_back(r[intCol]); if (sv2 != sv) return std::string("BAD dt selection.Remove(count-1,SIZE_MAX) changed the selection (") + (o == REJ ? "rejected" : "accepted") + ")"; } } break;
+	case 17: uname = "selection.Remove(count,1)"; expect = 'R'; o = attempt([&] { all.Remove(all.GetCount(), 1); }); break;
+	case 18: uname = "table[SIZE_MAX]"; expect = 'R'; o = attempt([&] { volatile int x = t[std::numeric_limits<size_t>::max()][intCol]; (void)x; }); break;
+	case 19: uname = "Remove(SIZE_MAX)"; expect = 'R'; o = attempt([&] { t.Remove(std::numeric_limits<size_t>::max()); }); break;
+	case 20: uname = "Insert(SIZE_MAX,row)"; expect = 'R'; o = attempt([&] { t.Insert(std::numeric_limits<size_t>::max(), t.NewRow(intCol = 5000)); }); break;
+	case 21: uname = "Update(count,row)"; expect = 'R'; o = attempt([&] { t.Update(t.GetCount(), t.NewRow(intCol = 5001)); }); break;
+	case 22: uname = "selection[SIZE_MAX]"; expect = 'R'; o = attempt([&] { volatile int x = sel[std::numeric_limits<size_t>::max()][intCol]; (void)x; }); break;
 	default: return "BAD unknown use";
 	}
 	if (either && (use <= 6 || use == 12)) expect = '?';
